@@ -216,41 +216,111 @@ Theorem C08_load_order_irrelevant : forall m c sc1 ow1 sc2 ow2 c1 c12,
 Proof. exact load_order_irrelevant. Qed.
 Print Assumptions C08_load_order_irrelevant.
 
-(* ---- "at the moment it is made", precisely.  A call resumed under es0 ++ e' :: es (one engine
-   of es0 per fact answer) takes its facts from the engine of its FIRST resumption and its
-   definitions from e', the engine current when the facts are exhausted. *)
-Theorem C08_late_resolution : forall f name args nx s es0 e' es,
-  let facts := fact_answers (db_get (e_db (hd e' es0)) (name, length args)) args s in
+(* ---- "resolves, at the moment it is made".  The call is made at the FIRST resumption of the
+   query object (YP.query is a generator function: creating the object runs nothing).  For every
+   schedule e0 :: es: the fact list and the result of the lookup (blacklist, '<name>_<N>', else
+   '<name>_n') are those of e0; the engines that come later are only handed to the bodies of the
+   definitions found in e0 (call_phase), after the facts. *)
+Theorem C08_resolution_at_first_resumption : forall f name args nx s e0 es,
+  let facts := fact_answers (db_get (e_db e0) (name, length args)) args s in
+  let fn := lookup_phase (e_ctx e0) name (length args) in
+  run_sched (e0 :: es) (query_gen (S f) name args nx s) =
+  if length es <? length facts
+  then (map (prune nx) (firstn (S (length es)) facts), None)
+  else let r := run_sched (skipn (length facts) (e0 :: es)) (call_phase (query_gen f) fn args nx s) in
+       (map (prune nx) (facts ++ fst r), snd r).
+Proof. exact resolution_at_first_resumption. Qed.
+Print Assumptions C08_resolution_at_first_resumption.
+
+(* the same, split at the moment the facts run out (es0: one engine per fact answer): the
+   definitions called under e' are those of the engine of the first resumption, not those of e' *)
+Theorem C08_resolution_moment : forall f name args nx s es0 e' es,
+  let e0 := hd e' es0 in
+  let facts := fact_answers (db_get (e_db e0) (name, length args)) args s in
+  let fn := lookup_phase (e_ctx e0) name (length args) in
   length es0 = length facts ->
   run_sched (es0 ++ e' :: es) (query_gen (S f) name args nx s) =
-  let r := run_sched (e' :: es) (fun_phase (query_gen f) name args nx s) in
+  let r := run_sched (e' :: es) (call_phase (query_gen f) fn args nx s) in
   (map (prune nx) (facts ++ fst r), snd r).
-Proof. exact late_resolution. Qed.
-Print Assumptions C08_late_resolution.
+Proof. exact resolution_moment. Qed.
+Print Assumptions C08_resolution_moment.
 
 (* a call that has taken its chain from the context keeps it: its answers are the same under
    every later history of the engine (definitions without calls; a call made from a body is a
-   new call and falls under C08_late_resolution) *)
+   new call and is resolved at its own first resumption) *)
 Theorem C08_resolved_call_keeps_definitions : forall call ds args nx s es1 es2,
   forallb callfree ds = true -> length es1 = length es2 ->
   run_sched es1 (chain_gen call ds args nx s) = run_sched es2 (chain_gen call ds args nx s).
 Proof. exact resolved_call_keeps_definitions. Qed.
 Print Assumptions C08_resolved_call_keeps_definitions.
 
-(* FINDING.  Full statement wanted by the strict reading of "resolves at the moment it is made":
-     forall e0 e1 (same facts, call-free definitions), run_sched (e0 :: es) (query ..) does not depend on es.
-   It is false of the code: a call suspended on one of its FACTS takes the definitions of the
-   moment the facts run out (fact p(f), definition p(old); start, answer f, overwrite-load p(new),
-   resume: answers new). *)
-Theorem C08_call_time_resolution_refuted :
-  exists e0 e1 name args nx,
-    e_db e0 = e_db e1 /\
-    forallb callfree (defs_of (e_ctx e0) name (length args)) = true /\
-    forallb callfree (defs_of (e_ctx e1) name (length args)) = true /\
-    run_sched [e0; e1; e1] (query_gen 2 name args nx []) <>
-    run_sched [e0; e0; e0] (query_gen 2 name args nx []).
-Proof. exact call_time_resolution_refuted. Qed.
-Print Assumptions C08_call_time_resolution_refuted.
+(* CALL-TIME RESOLUTION (this statement was refuted by the code before the repair of YP.query, which
+   looked the definitions up when the facts ran out).  call_defs e0 name N = the definitions the
+   call takes from e0 (none for an API name).  If they make no calls, the answers of the call are
+   the same under ALL later histories es1, es2 of the engine (asserts, loads with or without
+   overwrite, register, clear - while the call is suspended on a fact or inside a definition) ... *)
+Theorem C08_call_time_resolution : forall f name args nx s e0 es1 es2,
+  forallb callfree (call_defs e0 name (length args)) = true ->
+  length es1 = length es2 ->
+  run_sched (e0 :: es1) (query_gen (S f) name args nx s) =
+  run_sched (e0 :: es2) (query_gen (S f) name args nx s).
+Proof. exact call_time_resolution. Qed.
+Print Assumptions C08_call_time_resolution.
+
+(* ... namely the answers computed in e0 alone (by C08_lookup_spec: the facts of e0 in order, then
+   the definitions e0 holds for exactly N arguments, else the variadic ones) *)
+Theorem C08_call_time_resolution_answers : forall f name args nx s e0 es,
+  forallb callfree (call_defs e0 name (length args)) = true ->
+  let r := drain e0 (query_gen (S f) name args nx s e0) in
+  length (fst r) <= length es ->
+  run_sched (e0 :: es) (query_gen (S f) name args nx s) = (fst r, Some (snd r)).
+Proof. exact call_time_resolution_answers. Qed.
+Print Assumptions C08_call_time_resolution_answers.
+
+(* Before the first resumption nothing is fixed.  The query object made by `start` is the closed
+   term query_gen fuel name args .. whatever the engine is at that time, it stays that object
+   under all operations that do not resume it (engine changes, other queries), and its first
+   `next` is computed from the engine of the moment of that `next`. *)
+Theorem C08_created_query_unresolved : forall fuel name n st ops,
+  let i := length (st_susp st) in
+  forallb (leaves i) ops = true ->
+  nth_error (st_susp (exec_ops fuel ops (snd (do_op fuel (OStart name n) st)))) i =
+  Some (Some (query_gen fuel name (seq 0 n) n []), n).
+Proof. exact created_query_unresolved. Qed.
+Print Assumptions C08_created_query_unresolved.
+
+Theorem C08_unstarted_query_sees_engine_of_first_next : forall fuel name n st ops,
+  let i := length (st_susp st) in
+  forallb (leaves i) ops = true ->
+  let st' := exec_ops fuel ops (snd (do_op fuel (OStart name n) st)) in
+  fst (do_op fuel (ONext i) st') = step_obs n (query_gen fuel name (seq 0 n) n [] (st_eng st')).
+Proof. exact unstarted_query_sees_engine_of_first_next. Qed.
+Print Assumptions C08_unstarted_query_sees_engine_of_first_next.
+
+(* ---- the same over HISTORIES (what the correspondence check runs).  The results of the `next`
+   operations on suspended query i in a history are the run of its generator under the schedule of
+   the engines current at these `next` (no `close i` in the history) ... *)
+Theorem C08_nexts_are_schedule : forall fuel i n ops st g,
+  nth_error (st_susp st) i = Some (g, n) ->
+  forallb (fun o => negb (is_close i o)) ops = true ->
+  nexts_of fuel i ops st = sched_obs n (engines_at fuel i ops st) g.
+Proof. exact nexts_are_schedule. Qed.
+Print Assumptions C08_nexts_are_schedule.
+
+(* ... so: two arbitrary histories in which the first `next` of the not yet started query object of
+   a call name/n finds the same engine e0 (whose definitions for name/n make no calls) and which
+   resume it equally often report the same at every `next` of it, whatever else they do to the
+   engine (register, loads, asserts, clear, other queries) before, between and after *)
+Theorem C08_history_call_time_resolution : forall f name n i1 i2 ops1 ops2 st1 st2 e0 es1 es2,
+  let q := query_gen (S f) name (seq 0 n) n [] in
+  nth_error (st_susp st1) i1 = Some (Some q, n) -> nth_error (st_susp st2) i2 = Some (Some q, n) ->
+  forallb (fun o => negb (is_close i1 o)) ops1 = true -> forallb (fun o => negb (is_close i2 o)) ops2 = true ->
+  engines_at (S f) i1 ops1 st1 = e0 :: es1 -> engines_at (S f) i2 ops2 st2 = e0 :: es2 ->
+  length es1 = length es2 ->
+  forallb callfree (call_defs e0 name n) = true ->
+  nexts_of (S f) i1 ops1 st1 = nexts_of (S f) i2 ops2 st2.
+Proof. exact history_call_time_resolution. Qed.
+Print Assumptions C08_history_call_time_resolution.
 
 (* the big-step reading used above is the schedule in which the engine never changes *)
 Theorem C08_drain_is_constant_schedule : forall e st n,
@@ -274,3 +344,12 @@ Example C08_nonvacuous :
     drain e (query_gen 3 (d "p") [0] 1 [] e) =
     ([[(0, d "fact")]; [(0, d "x")]; [(0, d "x2")]; [(0, d "y")]; [(0, d "z")]; [(0, d "z2")]], Norm).
 Proof. eexists. split; [vm_compute; reflexivity | vm_compute; reflexivity]. Qed.
+
+(* non-vacuity of call-time resolution: fact p(f), definition p(old); started (answers f); p(old) is
+   replaced by p(new); resumed: old, although a call made now answers new.  And of "nothing is fixed
+   before the first next": Engine/ResolveHist.v unstarted_query_witness. *)
+Example C08_call_time_nonvacuous :
+  forallb callfree (call_defs wit_e0 (d "p") 1) = true /\
+  run_sched [wit_e0; wit_e1; wit_e1] (query_gen 2 (d "p") [0] 1 []) = ([[(0, d "f")]; [(0, d "old")]], Some Norm) /\
+  run_sched [wit_e1; wit_e1; wit_e1] (query_gen 2 (d "p") [0] 1 []) = ([[(0, d "f")]; [(0, d "new")]], Some Norm).
+Proof. exact call_time_resolution_witness. Qed.
